@@ -136,6 +136,15 @@ def lexAll : Nat → Bytes → Nat → Nat → Option (List Tok)
 
 def lexSource (s : Bytes) : Option (List Tok) := lexAll (s.length + 1) s 0 0
 
+/-- lengths of the source extents of the tokens of `s` -/
+def extents : Nat → Bytes → Option (List Nat)
+  | 0, _ => none
+  | fuel + 1, s =>
+    if s.isEmpty then some [] else
+    match lexOne s with
+    | none => none
+    | some (_, n) => if n = 0 then none else (extents fuel (s.drop n)).map (n :: ·)
+
 /-! numeric value of a numeral spelling as an exact rational `num / den` (Lua 5.2 numerals + PICO-8 `0b`) -/
 
 def digitsVal (base : Nat) (ds : Bytes) : Nat := ds.foldl (fun acc c => acc * base + (unhexDigit c).getD 0) 0
